@@ -10,7 +10,11 @@ use super::types::{
 };
 use super::FixtureDatabase;
 use rustpython_parser::ast::{Expr, Ranged, Stmt};
+#[cfg(not(pytest_language_server_verif))]
 use std::collections::HashSet;
+// verification hook: solver-friendly set/map stand-ins of the harness crate (see /verif/DESIGN.md §9)
+#[cfg(pytest_language_server_verif)]
+use crate::verif_collections::HashSet;
 use std::path::Path;
 use tracing::{debug, info};
 
@@ -1504,7 +1508,10 @@ impl FixtureDatabase {
     /// Uses iterative algorithm to avoid stack overflow on deep dependency graphs.
     fn compute_fixture_cycles(&self) -> Vec<super::types::FixtureCycle> {
         use super::types::FixtureCycle;
+        #[cfg(not(pytest_language_server_verif))]
         use std::collections::HashMap;
+        #[cfg(pytest_language_server_verif)]
+        use crate::verif_collections::HashMap;
 
         // Build dependency graph: fixture_name -> dependencies (only known fixtures)
         let mut dep_graph: HashMap<String, Vec<String>> = HashMap::new();
